@@ -214,6 +214,22 @@ def bounded(tier, seed):
                         violations.append({"clause": "entry_points_agree", "entry": k, "bom": True,
                                            "input": {kk: (vv.value if hasattr(vv, "value") else vv) for kk, vv in o.items()},
                                            "got": v[:300], "want": want[:300]})
+        # degenerate documents (empty, one line end, blanks only): "nothing to format" takes the same route as everything else
+        plain = [p for p in pts if p.get("plaintext")][:1]
+        for o in pts[:3] + plain:
+            for doc in ("", "\n", "  \n\n"):
+                r = entry_points(o, d, doc=doc)
+                evals += len(r) - 1
+                for k, v in r.items():
+                    if k in ("text", "file_api:inplace.orig"):
+                        continue
+                    want = r["text"] if k != "files_api:two_inplace" else r["text"] + "\x00" + r["text"]
+                    if k == "cli:stdin+file":
+                        want = r["text"] + r["text"]
+                    if v != want:
+                        violations.append({"clause": "entry_points_agree", "entry": k, "degenerate_document": repr(doc),
+                                           "input": {kk: (vv.value if hasattr(vv, "value") else vv) for kk, vv in o.items()},
+                                           "got": v[:300], "want": want[:300]})
         for o in pts[:4]:
             want, r = crlf_points(o, d)
             evals += len(r)
@@ -234,7 +250,7 @@ def bounded(tier, seed):
         shutil.rmtree(d, ignore_errors=True)
     return {"evaluations": evals, "distinct_nontrivial": len(distinct), "violations": violations, "samples": samples,
             "rule": "option points {width 0/40/88} x 2^5 flags x 3 list-spacings (quick: width-40/preserve slice + 24 seeded "
-                    "others; thorough: all 288) x 12 entry points on one option-sensitive document (+ the same document with a byte-order mark, and with CRLF line ends through the 6 file-reading entry points, compared in binary); distinct = distinct "
+                    "others; thorough: all 288) x 12 entry points on one option-sensitive document (+ empty / blank-only documents, the same document with a byte-order mark, and with CRLF line ends through the 6 file-reading entry points, compared in binary); distinct = distinct "
                     "text-API outputs",
             "exhaustive": tier == "thorough", "bound": "1 document, 288 option points"}
 
